@@ -60,7 +60,7 @@ UNIT = Unit(
     name='opt_kotlin', props=['C04', 'C07'], pre_verus=O.PRE_VERUS, spec_files=['std_slices.rs', 'seqjoin.rs', 'typexpr.rs', 'txt.rs', 'optmark.rs'], prelude=PRELUDE,
     items=O.base_items('Kotlin', SRC) + [
         Item('enum_Visibility', SRC, ['enum Visibility']),
-        Item('write_element', SRC, ['impl Kotlin {', 'fn write_element'], ELEMENT, wrap=('impl Kotlin {\n', '\n}\n'),
+        Item('write_element', SRC, ['impl Kotlin {', 'fn write_element'], ELEMENT, wrap=('impl Kotlin {\n#[verifier::rlimit(40)] // solver budget only: about 17 M resource units, the default cap is 30 M\n', '\n}\n'),
              auto=('fmt', 'strlit', 'then_some', 'map_err_q')),
     ],
     functions=['Kotlin::write_element', 'RustType::is_optional', 'RustType::is_double_optional'],
